@@ -40,12 +40,28 @@ func NewByteReader(r io.Reader) ByteReader {
 
 type byteReader struct {
 	io.Reader
+	err error // error that came together with the last byte
 }
 
 func (r *byteReader) ReadByte() (byte, error) {
 	var buff = [1]byte{}
-	_, err := r.Read(buff[:])
-	return buff[0], err
+	if err := r.err; nil != err {
+		r.err = nil
+		return 0, err
+	}
+	// a Read may return no data without an error, retry a bounded number of times.
+	for i := 0; i < 100; i++ {
+		n, err := r.Read(buff[:])
+		if n > 0 {
+			// an error returned together with the byte is reported by the next call.
+			r.err = err
+			return buff[0], nil
+		}
+		if nil != err {
+			return 0, err
+		}
+	}
+	return 0, io.ErrNoProgress
 }
 
 // ToReader wrap message to io.Reader
